@@ -1,7 +1,7 @@
 """Contracts for src/gbigsmiles/system.py (ensemble generation) and the Mixture getters it reads."""
 from pyvc.registry import contract, lemma, specfn
 from pyvc.engine import ghost
-from pyvc.sorts import BOOL, INT, REAL, List, NRef, Opaque, Opt, Ref
+from pyvc.sorts import BOOL, INT, REAL, STR, List, NRef, Opaque, Opt, Ref
 from .common import GENERATOR
 
 ghost("acc", REAL)                      # heavy-atom mass of the molecules yielded so far
@@ -131,3 +131,27 @@ lemma("C14_required_law_does_not_follow_from_pinned_selection", dict(f1=REAL, f2
 lemma("C14_pinned_selection_is_right_for_equal_masses", dict(f1=REAL, f2=REAL, m=REAL, p1=REAL, p2=REAL),
       "p1 * m * f2 == p2 * m * f1",
       hyps=["f1 > 0 and f2 > 0 and m > 0", "p1 * (f1 + f2) == f1 and p2 * (f1 + f2) == f2"], props=["C14"])
+
+
+# ---- System.__init__: the splitting loop terminates (C15: "parsing any string terminates"; this loop did not, before fix 357d244) ----------------
+contract("molecule.Molecule.__init__", trusted=True,
+         why_trusted="string surgery of the molecule parser (outside the engine's reach; bounded C01 / C02 / C15 drivers); here only: it returns or raises",
+         props=["C15"], params=dict(self=Ref("Molecule"), big_smiles_ext=STR, res_id_prefix=INT), defaults={"res_id_prefix": 0}, returns=None,
+         ensures=[], raises_may={"RuntimeError": "True", "ValueError": "True", "IndexError": "True", "TypeError": "True", "Exception": "True"}, modifies=[])
+contract("molecule.Molecule.residues", is_property=True, trusted=True, why_trusted="concatenation of the elements' residue lists; only its length is used (residue numbering)",
+         props=["C15"], params=dict(self=Ref("Molecule")), returns=List(Ref("SmilesToken")), ensures=["fresh(result)"], modifies=[])
+contract("system._estimate_system_molecular_weight", trusted=True,
+         why_trusted="the mass inference (five loops over the components, Mixture setters): C12's bounded driver with an independent solver; here only: it returns a flag or raises",
+         props=["C12"], params=dict(molecules=List(Ref("Molecule")), system_molweight=Opt(REAL)), returns=BOOL, ensures=[],
+         raises_may={"RuntimeError": "True", "ZeroDivisionError": "True", "TypeError": "True"},
+         modifies=["Molecule.mixture", "Mixture._absolute_mass", "Mixture._relative_mass", "Mixture._system_mass"])
+_SI = {"len(self._molecules) >= 0": "returns"}
+contract("system.System.__init__", props=["C15"],
+         params=dict(self=Ref("System"), big_smiles_ext=STR, system_molweight=Opt(REAL)), defaults={"system_molweight": None}, returns=None,
+         ensures=list(_SI), labels=_SI,
+         raises_may={"RuntimeError": "True", "ValueError": "True", "IndexError": "True", "TypeError": "True", "ZeroDivisionError": "True", "Exception": "True"},
+         modifies=["System._raw_text@self", "System._res_id_prefix@self", "System._molecules@self", "System._generable@self",
+                   "Molecule.mixture", "Mixture._absolute_mass", "Mixture._relative_mass", "Mixture._system_mass"],
+         clause_props={"variant": ["C15"], "cover": ["C15"]},
+         loops={1: dict(anchor="text.find('.|') >= 0", decreases="len(text)", modifies=["list@self._molecules"],
+                        inv=["fresh(self._molecules) and self._molecules is at_loop_entry(self._molecules)"])})
